@@ -5,6 +5,7 @@ import json, os, subprocess, sys, shutil, time, glob
 R = "/tmp/mut/results"
 os.makedirs(R, exist_ok=True)
 targets = sys.argv[1:] or sorted(p[len("/tmp/mut/"):] for p in glob.glob("/tmp/mut/C??/[0-9]"))
+OVERRIDE = {"C04/1": ["C09"], "C11/3": ["C11", "C01"]}
 EXTRA = {"C02/3": ["C06"], "C03/1": ["C05"], "C10/1": ["C05"], "C19/1": ["C13"], "C03/2": ["C10"], "C03/3": ["C10"], "C10/2": ["C10"], "C07/1": ["C07", "C17"], "C17/1": ["C17", "C07"]}
 def sh(cmd, **kw):
     return subprocess.run(cmd, shell=True, stdout=subprocess.PIPE, stderr=subprocess.STDOUT, text=True, **kw)
@@ -25,7 +26,7 @@ for t in targets:
         out["apply_msg"] = a.stdout[-400:]
         sh("git -C /repo checkout -- . ; git -C /repo clean -fdq -e target")
     else:
-        props = [pid] + [p for p in EXTRA.get(t, []) if p != pid]
+        props = OVERRIDE.get(t) or ([pid] + [p for p in EXTRA.get(t, []) if p != pid])
         for p in props:
             ev = f"/verif/evidence/{p}.json"
             bak = f"/tmp/evidence_{p}.bak"
